@@ -707,8 +707,48 @@ async fn connect_part(ctx: &Ctx, rng: &mut Rng) {
                 .with_flags(DistributionFlags::new(own_flags))
                 .with_creation(0x0a0b_0c0du32)
                 .with_timeout(timeout);
+            // every third connection has a past: it completed a faultless handshake with an earlier incarnation of the
+            // peer and was closed; whatever that left behind must not change what happens now
+            let reused = scen % 3 == 0;
+            let mut conn = Connection::new(cfg);
+            let mut first_peer_task = Some(peer_task);
+            if reused {
+                if let Some(t) = first_peer_task.take() {
+                    t.abort();
+                    let _ = t.await;
+                }
+                let pl0 = net::listen_as(&epmd, &short).await;
+                let c0 = cookie.clone();
+                let first = tokio::spawn(async move {
+                    if let Ok(mut peer) = pl0.accept(&c0, peer_flags, peer_challenge ^ 0x5555).await {
+                        let _ = play(&mut peer, Dev::Conforming, Default::default()).await;
+                    }
+                });
+                let r0 = tokio::time::timeout(Duration::from_secs(10), conn.connect()).await;
+                let _ = conn.close().await;
+                first.abort();
+                if !matches!(r0, Ok(Ok(()))) {
+                    ctx.inconclusive("the faultless first handshake of a connection that was to be reused did not complete");
+                    continue;
+                }
+            }
+            // (the scripted peer of this scenario is started only now, so that the first incarnation cannot take its place)
+            let pl = if reused { Some(net::listen_as(&epmd, &short).await) } else { None };
+            let peer_task = if let Some(pl) = pl {
+                let (sc, tc) = (silent_cell.clone(), transcript_cell.clone());
+                let cookie2 = cookie.clone();
+                tokio::spawn(async move {
+                    let mut peer = match pl.accept(&cookie2, peer_flags, peer_challenge).await {
+                        Ok(p) => p,
+                        Err(_) => return,
+                    };
+                    *tc.lock().unwrap() = Some(peer.transcript.clone());
+                    let _ = play(&mut peer, devc, sc).await;
+                })
+            } else {
+                first_peer_task.take().expect("peer task")
+            };
             let client = tokio::spawn(async move {
-                let mut conn = Connection::new(cfg);
                 let t0 = Instant::now();
                 let r = conn.connect().await;
                 let done = Instant::now();
@@ -716,8 +756,8 @@ async fn connect_part(ctx: &Ctx, rng: &mut Rng) {
             });
             let watchdog = Duration::from_secs(15);
             let joined = tokio::time::timeout(watchdog, client).await;
-            let wit = |d: serde_json::Value| json!({"deviation": format!("{:?}", devc), "cookie": cookie, "own_flags": format!("{:#x}", own_flags), "peer_flags": format!("{:#x}", peer_flags), "peer_challenge": peer_challenge, "detail": d});
-            ctx.class(&format!("connect/{:?}/flags{}", dev, round % 3));
+            let wit = |d: serde_json::Value| json!({"deviation": format!("{:?}", devc), "connection_used_before": reused, "cookie": cookie, "own_flags": format!("{:#x}", own_flags), "peer_flags": format!("{:#x}", peer_flags), "peer_challenge": peer_challenge, "detail": d});
+            ctx.class(&format!("connect/{:?}/flags{}{}", dev, round % 3, if reused { "/connection-used-before" } else { "" }));
             let (res, state, nego, _t0, done) = match joined {
                 Err(_) => {
                     ctx.viol(&format!("C04:connect:never-returns:{:?}", dev), "connect() did not return within the 15 s watchdog (configured timeout 200 ms)", wit(json!({})));
@@ -911,7 +951,7 @@ fn message_part(ctx: &Ctx, rng: &mut Rng) {
 }
 
 pub fn run(ctx: &Ctx) {
-    ctx.rule("monitor 1: every sequence of length <= 3 (quick) / 4 (thorough) over 23 symbolic handshake-API actions (valid / stale-epoch / wrong / truncated / wrong-tag arguments) plus random sequences of length 5..12, five configurations (empty/long/non-ASCII cookies, names of 1..256 bytes, all-ones/zero/random flags, challenge 0 and 2^32-1), checked online against a shadow of the handshake epoch; monitor 2: Connection::connect against a scripted peer over loopback + fake EPMD for 29 peer behaviours (silence at and inside every step, truncated / oversized / old-format messages, 24 digest corruptions, garbage statuses, frames of length zero before each step and as a flood) x flag sets; monitor 3: the public handshake message types (name in both forms, status, challenge, reply, ack): what encode emits against the protocol's layouts, decode of those bytes, digests against an own MD5 and verify() on right, foreign and corrupted digests; evaluations = API calls / connect attempts judged; distinct = distinct action sequences (hash) and (deviation, flag set) pairs");
+    ctx.rule("monitor 1: every sequence of length <= 3 (quick) / 4 (thorough) over 23 symbolic handshake-API actions (valid / stale-epoch / wrong / truncated / wrong-tag arguments) plus random sequences of length 5..12, five configurations (empty/long/non-ASCII cookies, names of 1..256 bytes, all-ones/zero/random flags, challenge 0 and 2^32-1), checked online against a shadow of the handshake epoch; monitor 2: Connection::connect against a scripted peer over loopback + fake EPMD for 29 peer behaviours (silence at and inside every step, truncated / oversized / old-format messages, 24 digest corruptions, garbage statuses, frames of length zero before each step and as a flood) x flag sets, a third of them on a connection object that completed a handshake and was closed before; monitor 3: the public handshake message types (name in both forms, status, challenge, reply, ack): what encode emits against the protocol's layouts, decode of those bytes, digests against an own MD5 and verify() on right, foreign and corrupted digests; evaluations = API calls / connect attempts judged; distinct = distinct action sequences (hash) and (deviation, flag set) pairs");
     ctx.assume("digest of a non-ASCII cookie is taken over its UTF-8 bytes (the property does not fix the byte encoding); timing: a silent peer must be noticed within timeout + max(1 s, timeout), measured from the peer's silence; later but before the 15 s watchdog = inconclusive");
     if !selfcheck() {
         ctx.inconclusive("MD5 self-check (RFC 1321 vectors) failed: harness broken");
